@@ -1085,9 +1085,14 @@ mod pipeline {
         /// finish, effectively detaching it.
         ///
         /// [`Popen::communicate`]: struct.Popen.html#method.communicate
-        pub fn communicate(mut self) -> PopenResult<Communicator> {
-            self.cmds = self.cmds.into_iter().map(|cmd| cmd.detached()).collect();
-            let comm = self.setup_communicate()?.0;
+        pub fn communicate(self) -> PopenResult<Communicator> {
+            // Detach only once every command is running: if one of them fails
+            // to start, the ones already started must still be waited for,
+            // because the caller gets no handle to do it.
+            let (comm, mut v) = self.setup_communicate()?;
+            for p in &mut v {
+                p.detach();
+            }
             Ok(comm)
         }
 
